@@ -38,7 +38,7 @@ Proof. intros sc rw t l H. inversion H as [|sc0 i r t' sc' l' Hc HU' Hs Hr]. exi
 (* a scope stack without typedef names; [SC s s']: the step from s to s' introduces none, and it changes the depth of the
    stack by delivering braces only (every lemma of this library and every level statement built on it carries it, so that
    declarations - which add names to the innermost scope - can be followed through expressions and statements) *)
-Definition NoTD (sc: list (list (option str * bool))) : Prop := Forall (Forall (fun e => snd e = false)) sc.
+Definition NoTD (sc: list (list (option str * bool))) : Prop := sc <> [] /\ Forall (Forall (fun e => snd e = false)) sc.
 Definition SC (s s': pstate) : Prop := NoTD (scopes P s) -> NoTD (scopes P s').
 
 Definition Same (s s1: pstate) : Prop := before P s1 = before P s /\ idx P s1 = idx P s /\ ticks P s1 = ticks P s /\ SC s s1.
@@ -66,11 +66,11 @@ Proof. intros t a b c [H1 [H2 [H2' K1]]] [H3 [H4 [H4' K2]]]. split; [congruence|
 Lemma cl_notd : forall sc i t sc', cl sc i = Some (t, sc') -> NoTD sc -> NoTD sc'.
 Proof.
   intros sc i t sc' Hc HN. destruct i as [k v p fa|msg p f|]; cbn [cl] in Hc; try discriminate.
-  destruct (kind_eqb k K_LBRACE).
-  - injection Hc as _ <-. constructor; [constructor|exact HN].
+  destruct HN as [HN0 HN]. destruct (kind_eqb k K_LBRACE).
+  - injection Hc as _ <-. split; [discriminate|]. constructor; [constructor|exact HN].
   - destruct (kind_eqb k K_RBRACE).
-    + destruct sc as [|s0 [|s1 sr]]; try discriminate Hc. injection Hc as _ <-. inversion HN; assumption.
-    + injection Hc as _ <-. exact HN.
+    + destruct sc as [|s0 [|s1 sr]]; try discriminate Hc. injection Hc as _ <-. split; [discriminate|]. inversion HN; assumption.
+    + injection Hc as _ <-. split; assumption.
 Qed.
 
 (* delivery of one item *)
